@@ -374,7 +374,14 @@ pub fn expected_units(p: &Program) -> Vec<XUnit> {
                     match err {
                         Some((code, msg)) => out.push(XUnit::Err { code, msg }),
                         None => {
-                            let ended = rows.iter().filter(|r| r.form != RowForm::ColsOpen).count() as u64;
+                            let ended: u64 = rows
+                                .iter()
+                                .map(|r| match r.form {
+                                    RowForm::ColsOpen => 0,
+                                    RowForm::EndRowTimes(n) => n,
+                                    _ => 1,
+                                })
+                                .sum();
                             out.push(XUnit::Ok { rows: ended, id: 0 });
                         }
                     }
